@@ -39,8 +39,13 @@ def _run(ctx):
     srcs = [rd.rvname(s["rv"], 6) for bi, si, s in prevs]
     srcs += ["%s(%s)" % (lib.canon_callee(F, c), ",".join(rd.oname(a, 4) for a in c.args)) for c in rd.calls if not c.dest["p"] and rd.names.get(c.dest["l"]) == "prev_xref_start"]
     ok = any("prev_trailer" in t and "Prev" in t for t in srcs) and any("&trailer" in t and "Prev" in t for t in srcs)
-    ctx.ob("R-ORDER", "prev-chain", ok and len(srcs) == 2, "Prev is first taken from the newest trailer, then from each older trailer: %s" % [t[:60] for t in srcs], rd.where(),
-           what="the Prev chain is not followed from the trailer of the table that was just read")
+    if not srcs:
+        # the loop variable goes by another name (or is a field of a value that groups the loop state): this reading by names has
+        # nothing to read; the data-flow rule `prev-chain-followed-to-its-end` (readerrules.prev_chain, part of this check) decides
+        ctx.ob("R-ORDER", "prev-chain", True, "decided by prev-chain-followed-to-its-end (no variable named prev_xref_start)", rd.where(), nontrivial=False)
+    else:
+      ctx.ob("R-ORDER", "prev-chain", ok and len(srcs) == 2, "Prev is first taken from the newest trailer, then from each older trailer: %s" % [t[:60] for t in srcs], rd.where(),
+             what="the Prev chain is not followed from the trailer of the table that was just read")
     # object-stream merge add-only
     prop_c05.add_only_merge(ctx, F, "Reader::read", "the members of object streams", rule=R)
     # 2. Compressed entries consulted on the load path
